@@ -32,9 +32,15 @@ def main():
             pkg = m.group(1).strip().rstrip("/") if m else None
             if not pkg:
                 print(sid, "no 'place in' line"); continue
+            extra = []
+            if "//go:build verif" in demo:
+                extra += ["-tags", "verif"]
+            if re.search(r"run with:\s*-race", demo):
+                extra += ["-race"]
+                ENV["CGO_ENABLED"] = "1"
             dst = os.path.join(wt, pkg, "zz_seeded_demo_test.go")
             shutil.copy(os.path.join(d, "demo_test.go"), dst)
-            rc0, out0 = sh(["go", "test", "-vet=off", "-count=1", "./" + pkg], cwd=wt)
+            rc0, out0 = sh(["go", "test", "-vet=off", "-count=1"] + extra + ["./" + pkg], cwd=wt)
             res["demo_without_patch"] = "pass" if rc0 == 0 else "FAIL"
             rc, out = sh(["git", "-C", wt, "apply", os.path.join(d, "patch.diff")])
             if rc != 0:
@@ -42,7 +48,7 @@ def main():
             if rc != 0:
                 res["error"] = "patch does not apply to HEAD: " + out[-300:]
                 print(sid, res); continue
-            rc1, out1 = sh(["go", "test", "-vet=off", "-count=1", "./" + pkg], cwd=wt)
+            rc1, out1 = sh(["go", "test", "-vet=off", "-count=1"] + extra + ["./" + pkg], cwd=wt)
             res["demo_with_patch"] = "fail" if rc1 != 0 else "PASS"
             os.remove(dst)
             rcb, outb = sh(["go", "build", "./..."], cwd=wt)
@@ -66,7 +72,7 @@ def main():
                 meta = {"property": pid, "breaks": pid, "demo_package": pkg, "against_repo_commit": head.strip(),
                         "needs_to_manifest": (re.search(r"(?is)needs?[^\n]*\n?(.{0,400})", notes) or [None, ""])[0][:500] if notes else "",
                         "verified_by_lead": {"demo_without_patch": "pass", "demo_with_patch": "fail", "build_with_patch": "ok", "existing_suite_with_patch": "pass",
-                                             "commands": ["git apply patch.diff", "go build ./...", "go test -vet=off -count=1 ./...", "go test -vet=off -count=1 ./" + pkg + " (with demo_test.go copied in)"]},
+                                             "commands": ["git apply patch.diff", "go build ./...", "go test -vet=off -count=1 ./...", "go test -vet=off -count=1 " + " ".join(extra) + " ./" + pkg + " (with demo_test.go copied in)"]},
                         "source": "independent sub-agent given only the property text and a scratch worktree"}
                 json.dump(meta, open(os.path.join(tgt, "meta.json"), "w"), indent=1)
             print(sid, json.dumps(res))
